@@ -1,7 +1,9 @@
 ---------------------------------- MODULE Trace_Cli ----------------------------------
 (* Trace validation for C19, command-line half.                                                        *)
 (*   lib{op: "sentences", text, sents} / lib{op: "tok", text, mode, ms}    the oracle (core library)   *)
-(*   cli{args: {mode, all, wakati, split}, input, stdout, exit}            one real run of the binary  *)
+(*   cli{args: {mode, all, wakati, split, only, files}, input, stdout, console, exit}   one real run   *)
+(*   (files: the input is given as a file argument and the output goes to -o FILE; stdout is then the   *)
+(*    content of that file and console what the process wrote to its standard output)                  *)
 (* stdout must be exactly Run(input): every line without its terminator, split into the library's       *)
 (* sentences, each analysed by the library and written in the documented format.                        *)
 EXTENDS Cli, TraceIO
@@ -21,6 +23,7 @@ TrLib == /\ l <= NRec /\ Ev.ev = "lib"
 Answered(input, args) ==
   LET ls == StrippedLines(input) IN
   \A i \in 1..Len(ls) :
+     IF args.only THEN ls[i] \in DOMAIN libSent ELSE
      IF args.split THEN /\ ls[i] \in DOMAIN libSent
                         /\ \A k \in 1..Len(libSent[ls[i]]) : <<libSent[ls[i]][k], args.mode>> \in DOMAIN libTok
                    ELSE <<ls[i], args.mode>> \in DOMAIN libTok
@@ -28,7 +31,8 @@ Answered(input, args) ==
 TrCli == /\ l <= NRec /\ Ev.ev = "cli"
          /\ Ev.exit = 0
          /\ Answered(Ev.input, Ev.args)
-         /\ Ev.stdout = Run(Ev.input, Ev.args, libSent, libTok)
+         /\ Ev.stdout = Run(Ev.input, Ev.args, libSent, libTok)      \* with -o: the content of the output file
+         /\ Ev.args.files => Ev.console = <<>>                        \* and nothing on standard output
          /\ rest' = <<>> /\ outp' = Ev.stdout
          /\ UNCHANGED <<libSent, libTok>> /\ l' = l + 1
 
